@@ -1,48 +1,53 @@
 #!/usr/bin/env python3
-"""Applies every seeded change to /repo in turn (git apply ... git checkout -- .), runs all quick checks on it, and records which checks fire
-in seeded/<id>/detection.json.  Prints the markdown table used in DESIGN.md.  usage: record_detection.py [seed ids...]"""
+"""Applies every seeded change to a scratch copy of /repo's working tree (never to /repo itself), runs all quick checks on the copy, and
+records which checks fire in seeded/<id>/detection.json.  Prints the markdown table used in DESIGN.md.
+usage: record_detection.py [seed ids...]"""
 import json, os, subprocess, sys, tempfile, shutil
 from concurrent.futures import ThreadPoolExecutor
 VERIF = os.path.dirname(os.path.dirname(os.path.abspath(__file__)))
 ALL = ["C01", "C02", "C03", "C04", "C07", "C08", "C09", "C10", "C11", "C12", "C13", "C15", "C16", "C17", "C18", "C19"]
 def sh(*a, **k): return subprocess.run(a, capture_output=True, text=True, **k)
-if sh("git", "-C", "/repo", "diff", "--quiet").returncode != 0:
-    sys.exit("repo dirty")
 seeds = sys.argv[1:] or sorted(os.listdir(os.path.join(VERIF, "seeded")))
-rows = []
-for sid in seeds:
+
+
+def one(sid):
     d = os.path.join(VERIF, "seeded", sid)
     patch = os.path.join(d, "patch.diff")
     if not os.path.exists(patch):
-        continue
+        return None
     meta = json.load(open(os.path.join(d, "meta.json")))
-    if sh("git", "-C", "/repo", "apply", patch).returncode != 0:
-        rows.append((sid, meta, None, {})); continue
-    out = tempfile.mkdtemp(prefix="nucsverif-det-")
-    def run(p):
-        env = dict(os.environ, NUCSVERIF_OUT=os.path.join(out, p))
-        r = sh("/venv/bin/python", "-m", "nucsverif", "check", p, cwd=VERIF, env=env)
-        lines = [l.strip() for l in r.stdout.splitlines() if l.startswith("  ") and "[" in l]
-        return p, r.returncode, lines
+    tmp = tempfile.mkdtemp(prefix="nucsverif-det-")
     try:
-        with ThreadPoolExecutor(8) as ex:
-            res = list(ex.map(run, ALL))
+        for sub in ("nucs", "tests"):
+            shutil.copytree(os.path.join("/repo", sub), os.path.join(tmp, sub), ignore=shutil.ignore_patterns("__pycache__", "*.nbi", "*.nbc"))
+        if sh("git", "apply", patch, cwd=tmp).returncode != 0:
+            return (sid, meta, None, {})
+        res = []
+        for p in ALL:
+            env = dict(os.environ, NUCSVERIF_OUT=os.path.join(tmp, "out", p), PYTHONPATH=VERIF)
+            r = sh(sys.executable, "-m", "nucsverif", "check", p, "--repo", tmp, cwd=VERIF, env=env)
+            lines = [l.strip() for l in r.stdout.splitlines() if l.startswith("  ") and "[" in l]
+            res.append((p, r.returncode, lines))
     finally:
-        sh("git", "-C", "/repo", "checkout", "--", ".")
-        shutil.rmtree(out, ignore_errors=True)
+        shutil.rmtree(tmp, ignore_errors=True)
     fired = {p: [l[:400] for l in lines[:3]] for p, rc, lines in res if rc == 1}
     errs = [p for p, rc, _ in res if rc not in (0, 1)]
     det = {"seed": sid, "property": meta.get("property"), "checks_fired": sorted(fired), "analysis_errors": errs,
            "caught_by_own_property": meta.get("property") in fired, "reports": fired}
     json.dump(det, open(os.path.join(d, "detection.json"), "w"), indent=1)
-    rows.append((sid, meta, det, fired))
     print(f"{sid:8s} prop={meta.get('property')} fired={sorted(fired)} err={errs}", flush=True)
+    return (sid, meta, det, fired)
+
+
+with ThreadPoolExecutor(8) as ex:
+    rows = [r for r in ex.map(one, seeds) if r is not None]
 print()
 print("| seed | breaks | change | checks that fire | rule(s) |")
 print("|---|---|---|---|---|")
 for sid, meta, det, fired in rows:
     if det is None:
-        print(f"| {sid} | {meta.get('property')} | {(meta.get('title') or '')[:110]} | patch no longer applies | |"); continue
+        print(f"| {sid} | {meta.get('property')} | {(meta.get('title') or '')[:110]} | patch no longer applies | |")
+        continue
     rules = sorted({l.split("[", 1)[1].split("]", 1)[0] for ls in fired.values() for l in ls if "[" in l})
     own = meta.get("property")
     fl = ", ".join((f"**{p}**" if p == own else p) for p in sorted(fired)) or "— (missed)"
